@@ -163,6 +163,24 @@ impl Family {
             }
             // a table n columns wide: header row, delimiter row, one body row
             "rows" => spec_of(&[(&self.frag, n), (b"|\n", 1), (&self.close, n), (b"|\n", 1), (&self.frag, n), (b"|\n", 1)]),
+            // the fragment n times with the byte 0x01 replaced by the running number (n distinct labels, names, headings)
+            "numbered" => {
+                let parts: Vec<Vec<u8>> = (0..n)
+                    .map(|i| {
+                        let mut v = vec![];
+                        for b in &self.frag {
+                            if *b == 1 {
+                                v.extend_from_slice(i.to_string().as_bytes());
+                            } else {
+                                v.push(*b);
+                            }
+                        }
+                        v
+                    })
+                    .collect();
+                let refs: Vec<(&[u8], usize)> = parts.iter().map(|p| (p.as_slice(), 1)).collect();
+                spec_of(&refs)
+            }
             "paras" => {
                 let mut l = self.frag.clone();
                 l.extend_from_slice(b"\n\n");
@@ -692,6 +710,19 @@ fn icount_line_families() -> Vec<Family> {
     for l in ["# a", "## a b", "a\n===", "[a]: /u", "[a]: /u\n[a]", "- a", "1. a", "> a", "|a|b|", "<div>", "a  ", ": a", "[^a]: x", "- [ ] a", "a\n\n# a"] {
         v.push(f("lines", l, ""));
     }
+    // n distinct labels / names / headings (a lookup that is linear in the number of distinct keys shows only here)
+    for l in ["x[^\u{1}]\n\n[^\u{1}]: n\n\n", "[r\u{1}]: /u\n\n[r\u{1}]\n\n", "# h\u{1}\n\n", "t\u{1}\n\n: d\n\n", "[[w\u{1}]] ", "[^\u{1}] ", ":s\u{1}: "] {
+        v.push(f("numbered", l, ""));
+    }
+    // an autolink running into a tail that alternates closing brackets with trimmed punctuation
+    for (pre, suf) in [("www.a.b/p", "\n"), ("http://a.b/p", " x\n"), ("a@b.c", "\n")] {
+        let mut close = pre.as_bytes().to_vec();
+        close.push(1);
+        close.extend_from_slice(suf.as_bytes());
+        for pl in [":)", ").", ")]", ")*", ")?)"] {
+            v.push(Family { shape: "wrap", frag: pl.as_bytes().to_vec(), close: close.clone(), curated: true });
+        }
+    }
     v.push(f("rows", "|a", "|-"));
     v.push(f("rows", "|a ", "|:-:"));
     v
@@ -767,7 +798,8 @@ fn judge_icount(rep: &mut Report, optname: &str, fam: &Family, n1: usize, n2: us
     if sl > ISLOPE_LIMIT && b > 5_000_000 {
         // a named mechanism class if there is one, else the family itself (instruction counts see every helper,
         // so the class of a finding must not be wider than the family that shows it)
-        let named = family_sig(optname, fam, "steps-superlinear");
+        // (the named classes are about nesting / repetition of one fragment: a numbered family is judged on its own)
+        let named = if fam.shape == "numbered" { format!("{}/{}", optname, fam.shape) } else { family_sig(optname, fam, "steps-superlinear") };
         let sig = if named == format!("{}/{}", optname, fam.shape) { format!("{}/{}/{}/{}", optname, fam.shape, hex(&fam.frag), hex(&fam.close)) } else { named };
         let input = format!("ipair {} {} {} {} {} {}", optname, fam.shape, hex(&fam.frag), hex(&fam.close), n1, n2);
         rep.fail(
@@ -1189,7 +1221,7 @@ pub fn replay(kind: &str, input: &str) -> Result<Option<String>, String> {
     match toks.first() {
         Some(&"pair") if toks.len() >= 7 => {
             let optname: &'static str = OPTSETS.iter().chain(["all+smart", "all+ids"].iter()).find(|o| **o == toks[1]).copied().ok_or("bad option set")?;
-            let shape: &'static str = ["rep", "repraw", "headrep", "nest", "lines", "paras", "tree", "wrap", "rows"].iter().find(|s| **s == toks[2]).copied().ok_or("bad shape")?;
+            let shape: &'static str = ["rep", "repraw", "headrep", "nest", "lines", "paras", "tree", "wrap", "rows", "numbered"].iter().find(|s| **s == toks[2]).copied().ok_or("bad shape")?;
             let fam = Family { shape, frag: crate::util::unhex(toks[3]).ok_or("bad hex")?, close: crate::util::unhex(toks[4]).ok_or("bad hex")?, curated: true };
             let n1: usize = toks[5].parse().map_err(|_| "bad n")?;
             let n2: usize = toks[6].parse().map_err(|_| "bad n")?;
@@ -1200,7 +1232,7 @@ pub fn replay(kind: &str, input: &str) -> Result<Option<String>, String> {
         }
         Some(&"ipair") if toks.len() >= 7 => {
             let optname: &'static str = OPTSETS.iter().chain(["all+smart", "all+ids"].iter()).find(|o| **o == toks[1]).copied().ok_or("bad option set")?;
-            let shape: &'static str = ["rep", "repraw", "headrep", "nest", "lines", "paras", "tree", "wrap", "rows"].iter().find(|s| **s == toks[2]).copied().ok_or("bad shape")?;
+            let shape: &'static str = ["rep", "repraw", "headrep", "nest", "lines", "paras", "tree", "wrap", "rows", "numbered"].iter().find(|s| **s == toks[2]).copied().ok_or("bad shape")?;
             let fam = Family { shape, frag: crate::util::unhex(toks[3]).ok_or("bad hex")?, close: crate::util::unhex(toks[4]).ok_or("bad hex")?, curated: true };
             let n1: usize = toks[5].parse().map_err(|_| "bad n")?;
             let n2: usize = toks[6].parse().map_err(|_| "bad n")?;
